@@ -23,9 +23,9 @@ package zitiql
 //@   ensures[pooled-instances-returned] forall(x, poolOut[x] == old(poolOut[x]))
 
 //@ func newErrorListener
-//@   props C10
+//@   props C10 C18
 //@   pure
-//@   ensures result != nil && len(result.Errors) == 0
+//@   ensures result != nil && fresh(result) && len(result.Errors) == 0
 // the error list a parse returns is the caller's: its listener is made for this call and is not kept anywhere
 //@ func ParseWithDebug
 //@   props C10 C18
